@@ -232,8 +232,16 @@ Proof.
   apply RM_emit_token_body. exact IH.
 Qed.
 
+Lemma RM_collecting {A} (m : M A) k : RM m -> RM k -> RM (collecting m k).
+Proof.
+  intros Hm Hk c. unfold collecting. specialize (Hm c). destruct (m c) as [a c1|ds c1|f]; auto;
+  specialize (Hk c1); destruct (k c1); eauto.
+Qed.
 Lemma RM_register_segment_symbols l : RM (register_segment_symbols l).
-Proof. induction l as [|[n s] r IH]; cbn [register_segment_symbols]; [apply RM_ret|]. rm. exact IH. Qed.
+Proof.
+  induction l as [|[n s] r IH]; cbn [register_segment_symbols]; [apply RM_ret|].
+  apply RM_collecting; [rm|]. apply RM_collecting; [rm|exact IH].
+Qed.
 
 Lemma RM_after_pass : RM after_pass.
 Proof. unfold after_pass. apply RM_bind; [apply RM_get|intro]. apply RM_register_segment_symbols. Qed.
